@@ -63,6 +63,11 @@ def gen_str(r, kind, sep, esc):
         # characters that str.splitlines() - but not csv, and not a text file opened with universal newlines - treats as line
         # boundaries: VT, FF, FS, GS, RS, NEL, LS, PS (form feeds from PDF text, GS1 separators in barcodes, U+2028 from the web)
         alpha = '\x0b\x0c\x1c\x1d\x1e\x85\u2028\u2029' + base + sep[0]
+    elif kind == 'lookalike':
+        # text that spells a value of ANOTHER column type (digit-only codes next to an int column holding the same numbers, 'True'
+        # next to a bool column, '3.0' next to a float column): what a field becomes depends on its column, never on its text alone
+        return r.choice(['0', '1', '-1', '42', '-7', 'True', 'False', '1.5', '-0.5', '3.0', '100.0', '0.0', '-0.0', '1e-05', '0.1', 'None', 'nan',
+                         str(r.randint(-1000, 1000)), str(float(r.randint(-1000, 1000))), '9223372036854775807', '100000000000000000000'])
     elif kind == 'dense_unicode':
         # almost every byte of the file belongs to a 2-4 byte character: some character straddles each 64 KiB read boundary
         return ''.join(r.choice('\xe9€\U0001f600\u4e2d\ufeff\ufeff' + sep[0]) for _ in range(r.randint(15, 40)))
@@ -92,7 +97,7 @@ def build_rows(spec, cols, sep, esc):
                 row.append(r.random() < 0.5)
             else:
                 row.append(gen_str(r, spec['skind'] if spec['skind'] != 'mixed' else
-                                   r.choice(['plain', 'blank', 'quote', 'escape', 'sep', 'unicode', 'adversarial', 'control']), sep, esc))
+                                   r.choice(['plain', 'blank', 'quote', 'escape', 'sep', 'unicode', 'adversarial', 'control', 'lookalike']), sep, esc))
         rows.append(row)
     return rows
 
@@ -146,7 +151,7 @@ class C18(Check):
                    'floats are finite and compared with == plus sign']
     ANCHORS = ['rxsci/container/csv.py', 'rxsci/io/file.py', 'rxsci/framing/line.py']
     REQUIRED_TAGS = ['the-default-parser-of-the-library', 'newline=CRLF', 'loader-built-before-the-dump', 'target-exists-empty'] + FILE_NAME_TAGS + ['stream', 'file', 'enc=None', 'enc=utf-8', 'multi-chunk-file', 'cols=1', 'cols=8',
-                     'skind=adversarial', 'skind=huge', 'skind=control', 'fkind=bits', 'sep=,', 'sep=;', 'sep=|', 'sep=tab', 'sep=multi', 'pushed-source', 'multibyte-char-across-a-64KiB-boundary', 'rows-not-retained',
+                     'skind=adversarial', 'skind=huge', 'skind=control', 'skind=lookalike', 'fkind=bits', 'sep=,', 'sep=;', 'sep=|', 'sep=tab', 'sep=multi', 'pushed-source', 'multibyte-char-across-a-64KiB-boundary', 'rows-not-retained',
                      'schema=names', 'schema=typed_namedtuple', 'schema=header']
     REQUIRED_OBSERVED = ['fields_compared', 'rows_needing_quote_merge']
 
@@ -175,7 +180,7 @@ class C18(Check):
     def _gen_cases(self, rng, tier, shard, nshards):
         n = 8400 if tier == 'quick' else 10 ** 7
         nfiles = 14 if tier == 'quick' else 60
-        skinds = ['plain', 'blank', 'quote', 'escape', 'sep', 'unicode', 'adversarial', 'mixed', 'control']
+        skinds = ['plain', 'blank', 'quote', 'escape', 'sep', 'unicode', 'adversarial', 'mixed', 'control', 'lookalike']
         fkinds = ['special', 'bits', 'decimal', 'digits17', 'integral', 'mixed']
         file_every = max(1, n // nfiles) if tier == 'quick' else 700
         for k in range(n):
